@@ -69,6 +69,7 @@ def factory_task(name):
         I = tc.interp(stubs=stubs)
         names = I_names = None
         hints = {"name": name}
+        tc.native = ("factory", hints)
 
         def scenario(kind):
             def thunk(I):
@@ -270,6 +271,10 @@ def spec_closed_form(dom, name, N, n, params):
         return 1 / (1 + u * u)
     if name == "lanczos":
         return dom.elem("sinc", 2 * centred / N1)
+    if name == "poisson_hanning":
+        a = params.get("alpha", 2)
+        hann = dom.opaque_array("npwin_hanning", dom.key_terms([N]), N, "float")
+        return hann.at(n) * dom.elem("exp", -a * V.s_abs(centred) / (Nf / 2))
     raise KeyError(name)
 
 
@@ -279,8 +284,11 @@ SYMBOLIC_WINDOWS = {
     "blackman_nuttall": ([], "fscm"), "blackman_harris": ([], "fscm"), "flattop": ([], "fs"), "cosine": ([], "fscm"),
     "gaussian": (["alpha"], "fscm"), "bohman": ([], "fsc"), "riesz": ([], "fscm"), "riemann": ([], "fsc"),
     "poisson": (["alpha"], "fscm"), "cauchy": (["alpha"], "fscm"), "lanczos": ([], "fsc"),
+    "poisson_hanning": (["alpha"], "f"),
 }
-LIB_WINDOWS = ["kaiser", "bartlett", "hamming", "hann", "chebwin", "poisson_hanning"]
+# library generators: (numpy/scipy name, forwarded parameter)
+LIB_WINDOWS = {"kaiser": ("kaiser", "beta"), "bartlett": ("bartlett", None), "hamming": ("hamming", None), "hann": ("hanning", None),
+               "chebwin": ("chebwin", "attenuation")}
 
 
 def win_task(name, odd_centre=False):
@@ -290,6 +298,7 @@ def win_task(name, odd_centre=False):
         dom = tc.smt()
         I = tc.interp()
         hints = {"window": name}
+        tc.native = ("window", hints)
 
         def thunk(I):
             if odd_centre:
@@ -342,26 +351,40 @@ def win_task(name, odd_centre=False):
 
 
 def libwin_task(name):
+    libname, param = LIB_WINDOWS[name]
+
     def run(tc):
         dom = tc.smt()
         I = tc.interp()
         hints = {"window": name}
+        tc.native = ("window", hints)
 
         def thunk(I):
             N = dom.input_int("N")
             I.assume(V.s_cmp(">=", N, 1))
-            I.st = dict(N=N)
-            return I.call_qual("spectrum.window.window_" + name, N)
+            kw = {}
+            if param:
+                kw[param] = dom.input_real("param_" + param)
+            I.st = dict(N=N, kw=kw)
+            return I.call_qual("spectrum.window.window_" + name, N, **kw)
 
         def post(P):
+            st = P.interp.st
             if P.outcome != "return" or not isinstance(P.value, Arr):
                 P.fail("no-exception", "window_%s failed" % name, replay=("window", hints))
                 return
-            P.prove("len=N", V.s_eq(P.value.n, P.interp.st["N"]), replay=("window", hints))
+            N = st["N"]
+            P.prove("len=N", V.s_eq(P.value.n, N), replay=("window", hints))
             if P.value.dtype == "complex":
                 P.fail("real", "complex dtype", replay=("window", hints))
             else:
                 P.ok("real")
+            if V.known(V.s_eq(N, 1)) is True:
+                return
+            # the library generator is called with N and the user's shape parameter
+            want = dom.opaque_array("npwin_" + libname, dom.key_terms([N] + list(st["kw"].values())), N, "float")
+            n = P.skolem("n", 0, N)
+            P.prove("=library-window(N%s)" % ("," + param if param else ""), V.s_eq(P.value.at(n), want.at(n)), replay=("window", hints))
         tc.run_paths(I, thunk, post)
     return Task("win.%s(library)" % name, run, functions=["spectrum.window.window_" + name])
 
@@ -373,6 +396,7 @@ def bounded_task(name, maxN):
         dom.materialise_limit = 64
         I = tc.interp()
         hints = {"window": name, "bounded": True}
+        tc.native = ("window", hints)
 
         def thunk(I):
             out = []
